@@ -145,6 +145,21 @@ pub fn run(reg: &dyn Registry, ctx: &Ctx) -> Outcome {
             Err((what, replay)) => ctx.violation("C02:stream-long", &format!("Hc128Rng: {}", what), replay),
         }
     }
+    // deep runs (thorough): 14 dense seeds to 2^28 words, 2 seeds past 2^32 words (the block counter
+    // passes every power of two up to 2^32)
+    if thorough {
+        let mut jobs: Vec<(Vec<u8>, usize)> = chain_seeds(ty, ctx.seed ^ 0x20, 14).into_iter().map(|s| (s, 1usize << 28)).collect();
+        jobs.push((alphabet::bg_bytes(ctx.seed, 0x0202, len), (1usize << 32) + (1 << 20)));
+        jobs.push((alphabet::zero(len), (1usize << 32) + (1 << 20)));
+        let res: Vec<_> = jobs.par_iter().map(|(s, w)| compare_rng(ty, s, *w, None)).collect();
+        ctx.add("deep_seeds", jobs.len() as u64);
+        for r in res {
+            match r {
+                Ok(n) => ctx.add("words_compared", n),
+                Err((what, replay)) => ctx.violation("C02:stream-deep", &format!("Hc128Rng: {}", what), replay),
+            }
+        }
+    }
     let steps_cov = cov.steps.iter().filter(|&&b| b).count() as u64;
     ctx.set("distinct_phase_step_indices", steps_cov);
     ctx.set("h1_table_indices_hit", cov.h_lo.iter().filter(|&&b| b).count() as u64);
